@@ -53,6 +53,11 @@ def check_case(case):
         if (case["extra"] >> (k % 3)) & 1:
             v.payload = {"k": k}
             v.label = "unrelated"
+    if case["opt"] & 256 and ls:
+        # a further vertex attached to an existing two-ended link through the public API (its v1 / v2 are unchanged)
+        l, x = ls[case["extra"] % len(ls)], vs[(case["extra"] * 3 + 1) % len(vs)]
+        if all(x is not y for y in l.vertices):
+            l.add_vertex(x)
     attrs_before = [sorted(vars(v)) for v in vs]
     info = _check_export(case, vs, ls, u)
     # a second export, of another universe over the same vertices (the complement plus the first member, in
@@ -89,7 +94,7 @@ def _check_export(case, vs, ls, u):
             net = pyvis.make_pyvis_net(u, rvfunc=title if use_rv else None, refunc=(lambda e: "e%d" % li[id(e)]) if use_re else None)
     except Exception as e:  # noqa
         raise Violation("export-raised", repr(e))
-    members = u.vertices
+    members = render.distinct(u.vertices)
     n = len(members)
     ids = [nd["id"] for nd in net.nodes]
     require(ids == list(range(n)), "node-ids", f"{ids} for {n} members")
@@ -97,7 +102,7 @@ def _check_export(case, vs, ls, u):
     exp_labels = [title(v) if use_rv else hex(id(v)) for v in members]
     require(labels == exp_labels, "node-labels", f"{labels} vs {exp_labels}")
     pos = {id(v): i for i, v in enumerate(members)}
-    internal = [l for l in ls if len(l.vertices) == 2 and id(l.v1) in pos and id(l.v2) in pos]
+    internal = [l for l in ls if len(l.vertices) >= 2 and id(l.v1) in pos and id(l.v2) in pos]
     directed = collections.Counter((pos[id(l.v1)], pos[id(l.v2)]) for l in internal if isinstance(l, DirectedEdge))
     undirected_pairs = {frozenset((pos[id(l.v1)], pos[id(l.v2)])) for l in internal if not isinstance(l, DirectedEdge)}
     all_pairs = {frozenset((pos[id(l.v1)], pos[id(l.v2)])) for l in internal}
@@ -122,7 +127,7 @@ def _check_export(case, vs, ls, u):
     has_d = any(isinstance(l, DirectedEdge) for l in internal)
     has_u = any(not isinstance(l, DirectedEdge) for l in internal)
     selfl = any(l.v1 is l.v2 for l in internal)
-    leaving = any((id(l.v1) in pos) != (id(l.v2) in pos) for l in ls if len(l.vertices) == 2)
+    leaving = any((id(l.v1) in pos) != (id(l.v2) in pos) for l in ls if len(l.vertices) >= 2)
     classes = []
     if has_d and has_u:
         classes.append("directed+undirected")
